@@ -116,4 +116,25 @@ theorem ordered_toActs (ins : List (Act Lk)) (hins : CountOnly ins) (tr : List E
         exact ⟨(by intro q hq; cases hq), ih ins hins _ hrun⟩
       · rw [if_neg hh] at hrun; cases hrun
 
+/-- along a sequence that passes the order and protection checks, an exclusive acquisition of the allocator or
+    the file lock finds a writer lock (database write lock or store write lock) held -/
+theorem protected_split (l : Lk) (hl : l = .alloc ∨ l = .file) (pre post : List Ev) (h0 hend : Held)
+    (hrun : runHeld h0 (pre ++ .acq l true :: post) = some hend)
+    (hprot : protectedFrom h0 (pre ++ .acq l true :: post) = true) :
+    ∃ h, runHeld h0 pre = some h ∧ holdsWriter h = true := by
+  induction pre generalizing h0 with
+  | nil =>
+    refine ⟨h0, rfl, ?_⟩
+    simp only [List.nil_append, protectedFrom, Bool.and_eq_true] at hprot
+    rcases hl with hl | hl <;> subst hl <;> simpa [Lk.outer, innerAllowed] using hprot.1
+  | cons e pre' ih =>
+    simp only [List.cons_append, runHeld] at hrun
+    cases hs : stepHeld h0 e with
+    | none => rw [hs] at hrun; cases hrun
+    | some h1 =>
+      rw [hs] at hrun
+      simp only [List.cons_append, protectedFrom, hs, Bool.and_eq_true] at hprot
+      obtain ⟨h, hr, hw⟩ := ih h1 hrun hprot.2
+      exact ⟨h, by simp only [runHeld, hs]; exact hr, hw⟩
+
 end IwModel.Locks
